@@ -9,6 +9,7 @@ inductive DState where
   | idle
   | srv (s : Srv)
   | rx (st : C11.DState)
+  | cli (st : C12.DState)
 
 def tail (s : Srv) : String := s!"pend={s.pending.length} bytes={s.bytes}"
 
@@ -19,6 +20,9 @@ def dstep (st : DState) (toks : List String) : DState × String :=
     | some mc, some mm, some l0 =>
       (.srv { maxChunks := mc, maxMsg := mm, l0 := l0, chanId := 1, last := 1, pending := [], closed := false }, "ok")
     | _, _, _ => (st, "bad-op")
+  | "reset" :: "cli" :: _ =>
+    match C12.dstep .idle toks with
+    | (s', o) => (.cli s', o)
   | "reset" :: "rx" :: _ =>
     match C11.dstep .idle toks with
     | (s', o) => (.rx s', o)
@@ -42,6 +46,9 @@ def dstep (st : DState) (toks : List String) : DState × String :=
     | .rx s =>
       match C11.dstep s toks with
       | (s', o) => (.rx s', o)
+    | .cli s =>
+      match C12.dstep s toks with
+      | (s', o) => (.cli s', o)
     | _ => (st, "bad-op")
 
 def driver : Driver := { σ := DState, init := .idle, step := dstep }
